@@ -22,6 +22,8 @@ var c12Configs = []Config{
 	{KM: "localkm", CA: "gcsca", ViaCLI: true},
 	{KM: "localkm", CA: "memca", ViaCLI: true},
 	{KM: "memkm", CA: "localca", ViaCLI: true},
+	{KM: "gcpkms", CA: "gcsca", ViaCLI: true},
+	{KM: "gcpkms", CA: "memca", ViaCLI: true},
 }
 
 func init() {
@@ -55,6 +57,7 @@ type c12Model struct {
 	preCerts    map[string][]byte
 	staleName   string
 	staleDER    []byte
+	staleShape  string
 	keysWiped   bool // a `wipeout keys|all` succeeded since the last successful bootstrap
 }
 
@@ -194,7 +197,12 @@ func c12Check(r *core.Run, a *Authority, m *c12Model, cfg Config, made string, o
 			}
 			if still && !bytes.Equal(was, now) {
 				key := clobberKey
-				if _, thisEpoch := m.everPrimary[name]; cfg.CA == "memca" && !m.keysWiped && !thisEpoch && name != m.primary && name != "root" {
+				if cfg.CA == "memca" && cfg.KM == "gcpkms" && f.KeepGoing && made == "boot" {
+					// gcpkms lets a bootstrap with --keep_going re-use the existing key versions (an
+					// idempotent re-run) and re-certifies them; memca, having no overwrite gate,
+					// replaces their certificates (gcsca keeps them)
+					key = "memca-gcpkms-keep-going-rebootstrap/boot"
+				} else if _, thisEpoch := m.everPrimary[name]; cfg.CA == "memca" && !m.keysWiped && !thisEpoch && name != m.primary && name != "root" {
 					// a leftover entry of a previous epoch (before the last bootstrap) replaced by a
 					// rotation that re-issues the key version name
 					key = "memca-stale-entry-replaced/" + made
@@ -274,12 +282,21 @@ func c12Check(r *core.Run, a *Authority, m *c12Model, cfg Config, made string, o
 	if ok && (made == "boot" || made == "rot") && f.KeepGoing && !f.Overwrite && primary != m.primary && bytes.Equal(m.preCerts[primary], der) {
 		shape = "/keep-going-kept-stale-certificate"
 		r.Probe("keep-going-kept-stale-certificate")
-		m.staleName, m.staleDER = primary, der
+		m.staleName, m.staleDER, m.staleShape = primary, der, shape
 	} else if primary == m.staleName && bytes.Equal(der, m.staleDER) {
 		// the state left behind by that command persists until the primary changes
-		shape = "/keep-going-kept-stale-certificate"
+		shape = m.staleShape
 	} else {
 		m.staleName, m.staleDER = "", nil
+	}
+	// Second shape of the same family: a bootstrap given --keep_going (without --overwrite) kept the
+	// stored root certificate object although the root key is a new one.
+	if cfg.CA != "memca" && made == "boot" && f.KeepGoing && !f.Overwrite {
+		if was, had := before[rootPath]; ok && had && bytes.Equal(was, a.CertObjects()[rootPath]) && !refv.CertIssuedBy(cert, root) {
+			shape = "/keep-going-kept-stale-root"
+			r.Probe("keep-going-kept-stale-root")
+			m.staleName, m.staleDER, m.staleShape = primary, der, shape
+		}
 	}
 	if ok && made == "boot" {
 		// a successful bootstrap starts a new epoch
